@@ -134,7 +134,10 @@ func c01Edits() []c01Edit {
 			return fmt.Errorf("skip")
 		}, func(h *wire.Hello) string {
 			e := h.Find(0)
-			if e == nil || len(e.Body) < 5 || string(e.Body[5:]) != "c.example" {
+			if e == nil {
+				return "" // the extension was removed by another edit of the sequence
+			}
+			if len(e.Body) < 5 || string(e.Body[5:]) != "c.example" {
 				return "SNI written into the extension object is not the one on the wire"
 			}
 			return ""
@@ -152,6 +155,12 @@ func c01Edits() []c01Edit {
 			e := h.Find(13)
 			if e == nil || len(e.Body) < 4 || e.Body[len(e.Body)-2] != 0x0f || e.Body[len(e.Body)-1] != 0x0f {
 				return "signature algorithm 0x0f0f written into the extension object is not last on the wire"
+			}
+			return ""
+		}},
+		{"RemoveSNIExtension", func(u *tls.UConn) error { return u.RemoveSNIExtension() }, func(h *wire.Hello) string {
+			if h.Find(0) != nil {
+				return "RemoveSNIExtension returned nil, yet a server_name extension is on the wire"
 			}
 			return ""
 		}},
@@ -214,6 +223,16 @@ func c01Scenario(clients []gridClient, depth int) *explore.Scenario {
 				}
 				scfg.CurvePreferences = []tls.CurveID{tls.CurveID(grp)}
 			}
+			// the application also asked for ECH (Config.EncryptedClientHelloConfigList; the server holds the
+			// key): whether the spec has an ECH extension or not, what goes out is the hello that was built
+			withECH := len(seq) == 0 && !resumed && x.Choose("ech-config", 2) == 1
+			var echKey []tls.EncryptedClientHelloKey
+			var echList []byte
+			if withECH {
+				e := peer.MakeECH(peer.ECHParams{ConfigID: 7, PublicName: "public.example", MaxNameLen: 32})
+				echKey, echList = []tls.EncryptedClientHelloKey{e.Key}, e.ConfigList
+				scfg.EncryptedClientHelloKeys = echKey
+			}
 			// how the handshake is started after the edits: Handshake(), or implicitly by the first Read / Write
 			start := []string{"", "read", "write"}[x.Choose("start", 3)]
 			what := fmt.Sprintf("%s edits=%v hrr=%v resumed=%v", g.Name, names, hrr, resumed)
@@ -225,6 +244,11 @@ func c01Scenario(clients []gridClient, depth int) *explore.Scenario {
 			skip := false
 			prep := g.prepare()
 			ccfg := g.config("example.com")
+			if withECH {
+				ccfg.EncryptedClientHelloConfigList = echList
+				ccfg.MinVersion = tls.VersionTLS13
+				what += " ech-config-set"
+			}
 			if resumed {
 				ccfg.ClientSessionCache = tls.NewLRUClientSessionCache(4)
 				ccfg.PreferSkipResumptionOnNilExtension = true // the documented knob for specs without the needed session extension (e.g. fingerprinted copies)
@@ -289,7 +313,7 @@ func c01Scenario(clients []gridClient, depth int) *explore.Scenario {
 				return
 			}
 			r.Nontrivial = true
-			r.Class = fmt.Sprintf("%s|%v|%v|%d|%s", g.Name, names, hrr, len(msgs), start)
+			r.Class = fmt.Sprintf("%s|%v|%v|%d|%s|%v", g.Name, names, hrr, len(msgs), start, withECH)
 			// (1) first record carries exactly Hello.Raw as rebuilt at handshake start
 			if !bytes.Equal(msgs[0], rawAtStart) {
 				r.Violate("C01|wire-differs-from-raw-at-start|"+strings.Join(names, "+"), "%s: first ClientHello on the wire (%d bytes) differs from HandshakeState.Hello.Raw at the first write (%d bytes)", what, len(msgs[0]), len(rawAtStart))
@@ -372,7 +396,7 @@ func c01Scenarios(thorough bool) []*explore.Scenario {
 func init() {
 	register(&Prop{ID: "C01", Level: "model_checking", Variant: "A", Scenarios: c01Scenarios,
 		Run: func(c *explore.Check, thorough bool) {
-			c.Rule = "every non-Golang ID, randomized seeds and custom specs (+ fingerprinted copies in thorough) x every sequence of <=2 (3) documented mutators (SetClientRandom, SetSNI, CipherSuites drop/append, SessionId pattern/empty, Extensions append/remove/edit (ALPN, server_name and signature_algorithms objects edited directly), a second BuildHandshakeState) applied between BuildHandshakeState and the start of the handshake {Handshake(), first Read, first Write} x server {plain, HRR-forcing} x {fresh connection, PSK parrot resuming a cached TLS 1.3 session}: (1) first ClientHello on the wire == Hello.Raw read at the first write, (2) the last edit of each field is visible to the strict parser, (3) after Handshake Hello.Raw == the last ClientHello sent. distinct = (client, edit sequence, server, hellos sent)"
+			c.Rule = "every non-Golang ID, randomized seeds and custom specs (+ fingerprinted copies in thorough) x every sequence of <=2 (3) documented mutators (SetClientRandom, SetSNI, CipherSuites drop/append, SessionId pattern/empty, Extensions append/remove/edit (ALPN, server_name and signature_algorithms objects edited directly), RemoveSNIExtension, a second BuildHandshakeState) applied between BuildHandshakeState and the start of the handshake {Handshake(), first Read, first Write} x server {plain, HRR-forcing} x {fresh connection, PSK parrot resuming a cached TLS 1.3 session} x (unedited hellos) {no ECH config, Config.EncryptedClientHelloConfigList set whether or not the spec has an ECH extension}: (1) first ClientHello on the wire == Hello.Raw read at the first write, (2) the last edit of each field is visible to the strict parser, (3) after Handshake Hello.Raw == the last ClientHello sent. distinct = (client, edit sequence, server, hellos sent)"
 			c.Assumptions = []string{"Hello.Raw 'as rebuilt at handshake start' is read by the transport's first-write callback on the handshaking goroutine"}
 			runAll(c, c01Scenarios(thorough), 0)
 			c.Gate(c.Total.Counters["hrr_completed"] > 100, "non-vacuity: %d completed HRR handshakes", c.Total.Counters["hrr_completed"])
